@@ -294,6 +294,61 @@ Fixpoint checksum_go (sum : Z) (l : list Z) : Z :=
   end.
 Definition compute_checksum (l : list Z) : option Z := Some (checksum_go 0 l).
 
+(* ================= round 2 kernels ================= *)
+(* engine/arith.rs: the closures of ADD SUB DIV MUL ABS NEG FLOOR CEILING MAX MIN.
+   Outcome of DIV: None = trap, Some None = HintErrorKind::DivideByZero, Some (Some v). *)
+Definition op_add (a b : Z) : option Z := Some (wrap_s 32 (a + b)).         (* a.wrapping_add(b) *)
+Definition op_sub (a b : Z) : option Z := Some (wrap_s 32 (a - b)).         (* a.wrapping_sub(b) *)
+Definition op_div (a b : Z) : option (option Z) :=
+  if b =? 0 then Some None else do r <- m_mul_div_no_round a 64 b ;; Some (Some r).
+Definition op_mul (a b : Z) : option Z := m_mul_div a b 64.
+Definition op_abs (a : Z) : option Z := Some (wrap_s 32 (Z.abs a)).         (* n.wrapping_abs() *)
+Definition op_neg (a : Z) : option Z := Some (wneg a).
+Definition op_floor := m_floor.
+Definition op_ceiling := m_ceil.
+Definition op_max (a b : Z) : option Z := Some (Z.max a b).
+Definition op_min (a b : Z) : option Z := Some (Z.min a b).
+(* engine/cvt.rs WCVTF: mul(value, self.graphics.scale) *)
+Definition op_wcvtf (v scale : Z) : option Z := m_mul v scale.
+(* glyf/mod.rs compute_scale: F26Dot6((ppem * 64.) as i32) / F26Dot6(units_per_em) *)
+Definition compute_scale (ppem upem : Z) : option Z := fixed_div_chk (ppem * 64) upem.
+(* hint/instance.rs setup: CVT values are converted to 26.6 on load: (value.get() as i32) * 64;
+   with cvar: base * 64 + Fixed(delta).to_f26dot6(); then (Fixed(v) * Fixed(scale >> 6)) *)
+Definition cvt_load (base : Z) : option Z := mul32 base 64.
+Definition cvt_load_cvar (base delta : Z) : option Z :=
+  do b <- mul32 base 64 ;; add32 b (fixed_to_f26dot6 delta).
+Definition cvt_scale (v scale : Z) : option Z := m_mul v (Z.shiftr scale 6).
+(* fixed.rs AddAssign / SubAssign: *self = *self + other through the wrapping Add / Sub *)
+Definition fx_add_assign (bits a b : Z) : option Z := Some (fx_add bits a b).
+Definition fx_sub_assign (bits a b : Z) : option Z := Some (fx_sub bits a b).
+(* glyf/mod.rs FreeTypeScaler::setup_phantom_points + the tsb / vadvance computed in Scaler::load *)
+Definition phantom_points (xmin ymax lsb adv ascent descent : Z) : option (Z * Z * Z * Z) :=
+  do tsb <- sub32 ascent ymax ;;
+  do vadv <- sub32 ascent descent ;;
+  do p0 <- sub32 xmin lsb ;;
+  let p1 := fx_add 32 p0 adv in
+  do p2 <- add32 ymax tsb ;;
+  let p3 := fx_sub 32 p2 vadv in
+  Some (p0, p1, p2, p3).
+(* glyf/deltas.rs Jiggler::interpolate, one coordinate of one point, C = i32, D = Fixed
+   (in1c <= in2c after the swap); cur = the out point's current value *)
+Definition delta_interp (in1c in2c out1 out2 pc cur : Z) : option Z :=
+  let in1 := fixed_from_i32 in1c in
+  let in2 := fixed_from_i32 in2c in
+  if negb (in1 =? in2) || (out1 =? out2) then
+    do scale <- (if negb (in1 =? in2) then fixed_div_chk (fx_sub 32 out2 out1) (fx_sub 32 in2 in1)
+                 else Some 0) ;;
+    let d1 := fx_sub 32 out1 in1 in
+    let d2 := fx_sub 32 out2 in2 in
+    let out := fixed_from_i32 pc in
+    if out <=? in1 then Some (fx_add 32 out d1)
+    else if in2 <=? out then Some (fx_add 32 out d2)
+    else do m <- fixed_mul_chk (fx_sub 32 out in1) scale ;; Some (fx_add 32 out1 m)
+  else Some cur.
+(* Jiggler::shift: delta = ref_out - ref_in; out_point += delta *)
+Definition delta_shift (ref_inc ref_out cur : Z) : option Z :=
+  Some (fx_add 32 cur (fx_sub 32 ref_out (fixed_from_i32 ref_inc))).
+
 (* ---- correspondence case format (harness/src/bin/c20.rs): (op, args, result);
         result [] = the real function panicked, [v..] = returned value(s) ---- *)
 Definition o1 (r : option Z) : list Z := match r with Some v => [v] | None => [] end.
@@ -353,6 +408,17 @@ Definition eval_op (op : Z) (args : list Z) : list Z :=
   | 46, [v] => o1 (t_half v)                       (* Cmap4: seg_count_x2 / 2 *)
   | 47, [l; r] => o1 (t_subtract l r)              (* hmtx: num_glyphs - number_of_h_metrics *)
   | 48, [l; r] => o1 (t_add l r)                   (* gvar: glyph_count + 1 *)
+  | 33, [a; b] => o1 (fx_add_assign 32 a b)         (* Fixed += / F26Dot6 += *)
+  | 34, [a; b] => o1 (fx_sub_assign 32 a b)
+  | 35, [a; b] => o1 (fx_add_assign 16 a b)         (* F2Dot14 += *)
+  | 13, [opc; a; b] =>      (* one arithmetic instruction executed by the real interpreter *)
+      match opc with
+      | 96 => o1 (op_add a b) | 97 => o1 (op_sub a b) | 98 => oo (op_div a b) | 99 => o1 (op_mul a b)
+      | 100 => o1 (op_abs a) | 101 => o1 (op_neg a) | 102 => o1 (op_floor a) | 103 => o1 (op_ceiling a)
+      | 139 => o1 (op_max a b) | 140 => o1 (op_min a b) | _ => [-999]
+      end
+  | 14, [v; ppem; upem] =>  (* scaled CVT entry read back with RCVT *)
+      o1 (do s <- compute_scale ppem upem ;; do c <- cvt_load v ;; cvt_scale c s)
   | _, _ => [-999]
   end.
 
